@@ -40,19 +40,30 @@ namespace cc = cds::container;
 
 namespace {
 
-const char* prop() { return vh::property() == "C18" ? "C18" : "C14"; }
+const char* prop() { return vh::property() == "C18" ? "C18" : vh::property() == "C19" ? "C19" : "C14"; }
 std::vector<Scenario> g_scen;
 
 struct caps_hash: caps_hp { typedef std::false_type ordered_iter; };
 struct caps_hash_rcu: caps_rcu { typedef std::false_type ordered_iter; };
 struct caps_hash_repl: caps_hash { typedef std::true_type update_replaces; };
 struct caps_hash_rcu_repl: caps_hash_rcu { typedef std::true_type update_replaces; };
+// thread-safe iterators (C19): containers built on IterableList, and FeldmanHashSet (forward and reverse, "at least once")
+struct caps_hash_iter: caps_hash_repl { typedef std::true_type safe_iter; typedef std::true_type has_erase_at; };
+struct caps_feldman: caps_hash_repl { typedef std::true_type safe_iter; typedef std::true_type has_erase_at; typedef std::true_type has_riter; typedef std::false_type iter_exactly_once; };
+struct caps_feldman_rcu: caps_hash_rcu_repl { typedef std::true_type safe_iter; typedef std::true_type has_riter; typedef std::false_type iter_exactly_once; };
 
 template <class Set, class Smr, class Caps>
-void family( std::string const& tname, std::vector<int> keys, int step, int bq = 2, int bt = 3 )
+void family( std::string const& tname, std::vector<int> keys, int step, int bq = 2, int bt = 3, std::vector<int> iter_keys = std::vector<int>())
 {
     typedef SetAdapter<Set, Smr, Caps, prop> A;
     std::string base = tname + "/" + Smr::name();
+    if ( vh::property() == "C19" ) {
+        if ( Caps::safe_iter::value && !iter_keys.empty()) {
+            std::vector<int> u = iter_keys; u.push_back( 0 );
+            add_iter_programs<A, Caps>( g_scen, base, { 0, iter_keys[0], iter_keys[1], iter_keys[2], iter_keys[3] }, u, bq, bt );
+        }
+        return;
+    }
     std::vector<int> universe = keys; universe.push_back( 0 );
     add_set_programs<A>( g_scen, base, set_grammar( { INS, DEL, HAS }, { keys[0], keys[1] }, 2, "g" ), 2, 0, step, bq, bt, universe );
     std::vector<Program> cur = set_curated( true, true, { 0, keys[0], keys[1], keys[2] } );
@@ -68,6 +79,7 @@ template <class Set, class Smr, class Caps>
 void growth( std::string const& tname, std::vector<int> k, int bq, int bt )
 {
     typedef SetAdapter<Set, Smr, Caps, prop> A;
+    if ( vh::property() == "C19" ) return;
     std::string base = tname + "/" + Smr::name();
     std::vector<int> universe = k; universe.push_back( 0 );
     auto P = [&]( std::string name, TProg pre, std::vector<TProg> th, int q, int t ) {
@@ -157,8 +169,8 @@ namespace {
 namespace ci = cds::intrusive;
 typedef node_disposer<prop> disp;
 struct caps_ih: caps_hash { typedef std::true_type has_unlink; typedef std::false_type has_emplace; };
-struct caps_ih_repl: caps_ih { typedef std::true_type update_replaces; };
-struct caps_ih_rcu_repl: caps_hash_rcu_repl { typedef std::true_type has_unlink; typedef std::false_type has_emplace; };
+struct caps_ih_repl: caps_ih { typedef std::true_type update_replaces; typedef std::true_type safe_iter; typedef std::true_type has_erase_at; typedef std::true_type has_riter; typedef std::false_type iter_exactly_once; };
+struct caps_ih_rcu_repl: caps_hash_rcu_repl { typedef std::true_type has_unlink; typedef std::false_type has_emplace; typedef std::true_type safe_iter; typedef std::true_type has_riter; typedef std::false_type iter_exactly_once; };
 // MichaelHashSet over the intrusive MichaelList
 typedef INode< ci::michael_list::node<cds::gc::HP> > mnode;
 struct mltr: public ci::michael_list::traits { typedef ci::michael_list::base_hook< cds::opt::gc<cds::gc::HP> > hook; typedef disp disposer; typedef item_less less; };
@@ -193,7 +205,7 @@ int main( int argc, char** argv )
     // two buckets, hash = key mod 2: keys 1,3,5 collide in one bucket, 2 lives in the other
     family<mhs_ml_hp, HpHolder<mhs_ml_hp::c_nHazardPtrCount + 2>, caps_hash>( "MichaelHashSet-MichaelList", { 1, 3, 2 }, 4 );
     family<mhs_ll_dhp, DhpHolder, caps_hash>( "MichaelHashSet-LazyList", { 1, 3, 2 }, 12 );
-    family<mhs_il_hp, HpHolder<mhs_il_hp::c_nHazardPtrCount + 2>, caps_hash_repl>( "MichaelHashSet-IterableList", { 1, 3, 2 }, 12 );
+    family<mhs_il_hp, HpHolder<mhs_il_hp::c_nHazardPtrCount + 2>, caps_hash_iter>( "MichaelHashSet-IterableList", { 1, 3, 2 }, 12, 2, 3, { 1, 3, 5, 4 } );
     family<mhs_ml_rcu, GpbHolder, caps_hash_rcu>( "MichaelHashSet-MichaelList", { 1, 3, 2 }, 12 );
 #elif FAMILY == 2
     // keys 1,5 share bucket 1 of 4 (and of 2), 3 is in bucket 3 (child of 1), 2 in bucket 2 (child of 0), 7 in bucket 3 / 7
@@ -204,25 +216,26 @@ int main( int argc, char** argv )
     family<sl_ll_dyn, DhpHolder, caps_hash>( "SplitListSet-LazyList-dynamic", { 1, 3, 2 }, 16 );
     growth<sl_ll_dyn, DhpHolder, caps_hash>( "SplitListSet-LazyList-dynamic", { 1, 2, 3, 7, 5, 6 }, 1, 2 );
 #elif FAMILY == 3
-    family<sl_il_dyn, HpHolder<sl_il_dyn::c_nHazardPtrCount + 2>, caps_hash_repl>( "SplitListSet-IterableList-dynamic", { 1, 3, 2 }, 12 );
+    family<sl_il_dyn, HpHolder<sl_il_dyn::c_nHazardPtrCount + 2>, caps_hash_iter>( "SplitListSet-IterableList-dynamic", { 1, 3, 2 }, 12, 2, 3, { 1, 3, 5, 2 } );
     growth<sl_il_dyn, HpHolder<sl_il_dyn::c_nHazardPtrCount + 2>, caps_hash_repl>( "SplitListSet-IterableList-dynamic", { 1, 2, 3, 7, 5, 6 }, 2, 3 );
     family<sl_ml_rcu, GpbHolder, caps_hash_rcu>( "SplitListSet-MichaelList-dynamic", { 1, 3, 2 }, 12 );
     growth<sl_ml_rcu, GpbHolder, caps_hash_rcu>( "SplitListSet-MichaelList-dynamic", { 1, 2, 3, 7, 5, 6 }, 2, 3 );
 #elif FAMILY == 4
     // 1, 17, 33 share the head slot (low 4 bits) and differ in the next 2 bits; 65 shares 6 bits with 1; 257 shares 8 bits
-    family<fh_hp, HpHolder<fh_hp::c_nHazardPtrCount + 2>, caps_hash_repl>( "FeldmanHashSet", { 1, 17, 65 }, 6 );
+    // iteration: 1, 17, 33 live in one head slot, so the concurrent insert of 65 (or 49) splits a slot under the iterator
+    family<fh_hp, HpHolder<fh_hp::c_nHazardPtrCount + 2>, caps_feldman>( "FeldmanHashSet", { 1, 17, 65 }, 6, 2, 3, { 1, 17, 33, 65 } );
     growth<fh_hp, HpHolder<fh_hp::c_nHazardPtrCount + 2>, caps_hash_repl>( "FeldmanHashSet", { 1, 2, 17, 65, 257, 33 }, 2, 3 );
-    family<fh_dhp, DhpHolder, caps_hash_repl>( "FeldmanHashSet", { 1, 17, 65 }, 16 );
+    family<fh_dhp, DhpHolder, caps_feldman>( "FeldmanHashSet", { 1, 17, 65 }, 16, 2, 3, { 1, 17, 2, 49 } );
     growth<fh_dhp, DhpHolder, caps_hash_repl>( "FeldmanHashSet", { 1, 2, 17, 65, 257, 33 }, 1, 2 );
-    family<fh_rcu, GpbHolder, caps_hash_rcu_repl>( "FeldmanHashSet", { 1, 17, 65 }, 16 );
+    family<fh_rcu, GpbHolder, caps_feldman_rcu>( "FeldmanHashSet", { 1, 17, 65 }, 16, 2, 3, { 1, 17, 33, 65 } );
     growth<fh_rcu, GpbHolder, caps_hash_rcu_repl>( "FeldmanHashSet", { 1, 2, 17, 65, 257, 33 }, 2, 3 );
 #elif FAMILY == 5
     family<imhs, HpHolder<8>, caps_ih>( "intrusive-MichaelHashSet-MichaelList", { 1, 3, 2 }, 8 );
     family<isls, HpHolder<8>, caps_ih>( "intrusive-SplitListSet-MichaelList", { 1, 3, 2 }, 12 );
     growth<isls, HpHolder<8>, caps_ih>( "intrusive-SplitListSet-MichaelList", { 1, 2, 3, 7, 5, 6 }, 1, 2 );
-    family<ifh_hp, HpHolder<8>, caps_ih_repl>( "intrusive-FeldmanHashSet", { 1, 17, 65 }, 8 );
+    family<ifh_hp, HpHolder<8>, caps_ih_repl>( "intrusive-FeldmanHashSet", { 1, 17, 65 }, 8, 2, 3, { 1, 17, 33, 65 } );
     growth<ifh_hp, HpHolder<8>, caps_ih_repl>( "intrusive-FeldmanHashSet", { 1, 2, 17, 65, 257, 33 }, 1, 2 );
-    family<ifh_rcu, GpbHolder, caps_ih_rcu_repl>( "intrusive-FeldmanHashSet", { 1, 17, 65 }, 16 );
+    family<ifh_rcu, GpbHolder, caps_ih_rcu_repl>( "intrusive-FeldmanHashSet", { 1, 17, 65 }, 16, 2, 3, { 1, 17, 33, 65 } );
 #endif
 
     Options o; o.property = vh::property().c_str();
